@@ -605,7 +605,13 @@ def to_obj(x):
     """numpy array (any dtype) -> object array of scalars of this layer."""
     if is_sym(x):
         return x
+    if isinstance(x, (z3.ExprRef, Fraction)):
+        out = np.empty((), dtype=object)
+        out[()] = x
+        return out
     x = np.asarray(x)
+    if x.dtype == object:
+        return x
     out = np.empty(x.shape, dtype=object)
     if x.dtype == np.bool_:
         for idx in np.ndindex(x.shape):
